@@ -91,7 +91,7 @@ def conc(ctx, nhist, clients, nops, mode='simpleconc'):
 def run(ctx, ps, gen_bad):
     runs = [(400, 250), (400, 150), (300, 150)] if ctx.quick else [(3000, 3000)] * 6
     fails, cov = run_kind(ctx, 'simple', runs)
-    f2, c2 = conc(ctx, 16 if ctx.quick else 400, 4, 16)
+    f2, c2 = conc(ctx, 30 if ctx.quick else 800, 5, 30)
     fails += f2
     cov.update(c2)
     cov['evaluations'] += c2['concurrent_histories']
